@@ -249,9 +249,25 @@ def run_config(cfg, res):
                 s, r = wk.req("MKCOL", nt, [X.XML_CT], X.mkcol_ext("addressbook", [(X.P_DISPLAYNAME, "My AB")]))
                 if W.World.success(s.status):
                     created.append(nt)
+            if "addressbooks" in d["homes"] and life == 0 and cfg.get("retype", True):
+                # a collection that is listed, deleted and made again at the same URL with another type
+                nt = d["homes"]["addressbooks"].rstrip("/") + "/swap/"
+                s, r = wk.req("MKCALENDAR", nt, [X.XML_CT], X.mkcalendar([(X.P_DISPLAYNAME, "first a calendar")]))
+                if W.World.success(s.status):
+                    wk.discover(start, life)
+                    wk.req("PROPFIND", nt, [("Depth", "0"), X.XML_CT], X.propfind([X.P_RESOURCETYPE]))
+                    s, r = wk.req("DELETE", nt)
+                    if W.World.success(s.status):
+                        s, r = wk.req("MKCOL", nt, [X.XML_CT], X.mkcol_ext("addressbook", [(X.P_DISPLAYNAME, "now an address book")]))
+                        if W.World.success(s.status):
+                            created.append(nt)
+                            res.count("collections_recreated_with_another_type")
             d2 = wk.discover(start, life)
             if d2 is None:
                 return
+            for t in created:
+                if t not in d2["calendars"] and t not in d2["addressbooks"]:
+                    wk.viol(f"{wk.sigbase()}/user-created-collection-not-reachable", f"[{wk.shape()} life {life}] {t} (just created by the user) is not reached by discovery with the type it was created with")
             for t in list(d2["calendars"])[:3]:
                 tok = w.new_token()
                 wk.req("PUT", t + "ev-%d-%s.ics" % (life, tok), [("Content-Type", "text/calendar")], gen.ical(rng, "c18-" + tok, tok, rich=False))
@@ -321,6 +337,7 @@ def check(tier, seed, t0):
     guards = [("discovery walks", c.get("walks", 0), 40 if tier == "quick" else 400), ("well-known walks", c.get("wellknown_walks_ok", 0) + 0, 50 if tier == "quick" else 500),
               ("restarts", c.get("restarts", 0), 20 if tier == "quick" else 250), ("collections compared across restarts", c.get("collections_compared", 0), 40 if tier == "quick" else 500),
               ("members compared across restarts", c.get("members_compared", 0), 40 if tier == "quick" else 500),
+              ("collections deleted and re-created with another type at the same URL", c.get("collections_recreated_with_another_type", 0), 10 if tier == "quick" else 100),
               ("default collections deleted by the user and re-created by a --defaults restart", c.get("deleted_default_recreated", 0), 2 if tier == "quick" else 8)]
     return common.finish(PROP, tier, seed, "exploration", merged, failures, RULE + f"; {len(cfgs)} configurations this run", t0, guards=guards,
                          assumptions=["a mounted WSGI deployment strips the mount prefix into SCRIPT_NAME (vf/wsgihost.py)", "the client follows 3xx Location of /.well-known/*"],
